@@ -61,13 +61,19 @@ impl Bench {
     /// Executes `f`; afterwards: Err => unchanged (live and after reopen), Ok => reopens to the same state.
     /// `light` skips the full before/after observation for the (huge) accepted steps that merely fill up.
     fn step(&mut self, what: &str, light: bool, f: impl FnOnce(&mut Pkg) -> std::io::Result<()>) -> Result<Outcome, Fail> {
+        self.step_opts(what, light, true, f)
+    }
+
+    /// `check_saved = false`: only the live before/after comparison (for states that are deliberately not
+    /// savable, e.g. while a catalog table is padded with rows that describe no real column).
+    fn step_opts(&mut self, what: &str, light: bool, check_saved: bool, f: impl FnOnce(&mut Pkg) -> std::io::Result<()>) -> Result<Outcome, Fail> {
         let before = if light { None } else { Some(self.obs()?) };
         let pkg = match self.pkg.as_mut() {
             Some(p) => p,
             None => return Err(Fail { clause: "no-package".into(), what: "package lost after an earlier panic".into() }),
         };
         // the saved file's string accounting before the step (only compared when the step is refused)
-        let acct_before = if light {
+        let acct_before = if light || !check_saved {
             None
         } else {
             let _ = guarded(|| pkg.flush());
@@ -94,6 +100,9 @@ impl Bench {
                 return Err(Fail { clause: "err-changed-package".into(), what: format!("{} returned an error but changed the package: {}", what, d) });
             }
         }
+        if !check_saved {
+            return Ok(out);
+        }
         // save; the library must be able to read its own file, and read the same
         let pkg = self.pkg.as_mut().unwrap();
         match guarded(|| pkg.flush()) {
@@ -107,16 +116,20 @@ impl Bench {
             }
         }
         let bytes = self.med.live();
-        // a refused step must not leave strings behind in the saved file (entries nobody refers to)
-        if out == Outcome::Err {
-            if let (Some(a0), Ok(d1)) = (&acct_before, fmt_codec::decode(&bytes)) {
-                let a1 = fmt_codec::account(&d1);
-                if a0.is_empty() && !a1.is_empty() {
-                    return Err(Fail {
-                        clause: "err-changed-saved-strings".into(),
-                        what: format!("{} returned an error but the saved string pool no longer matches the saved tables: {}", what, a1[..a1.len().min(3)].join("; ")),
-                    });
-                }
+        // a refused step must not leave strings behind in the saved file (entries nobody refers to),
+        // and an accepted step must save a file whose string accounting is exact
+        if let (Some(a0), Ok(d1)) = (&acct_before, fmt_codec::decode(&bytes)) {
+            let a1 = fmt_codec::account(&d1);
+            if a0.is_empty() && !a1.is_empty() {
+                return Err(Fail {
+                    clause: if out == Outcome::Err { "err-changed-saved-strings".into() } else { "saved-string-accounting".into() },
+                    what: format!(
+                        "{} {} the saved string pool no longer matches the saved tables: {}",
+                        what,
+                        if out == Outcome::Err { "returned an error but" } else { "succeeded but" },
+                        a1[..a1.len().min(3)].join("; ")
+                    ),
+                });
             }
         }
         let re = guarded(|| {
@@ -355,6 +368,60 @@ fn pool_limit(rep: &mut Report, mode: &str) {
             ok &= ok && expect(rep, "pool-65535", mode, "create_table needing exactly 3 new strings", b.step("create_table (names only) with 3 free pool entries", false, plain), Some(Outcome::Ok));
             ok &= ok && expect(rep, "pool-65535", mode, "1 more string", b.step("insert of a new string at the refilled limit", false, ins(room, room + 1)), Some(Outcome::Err));
         }
+        "shared-strings-over-sessions" => {
+            // W shares each of its strings between two rows: a session that deletes one user of each only lowers
+            // reference counts; the entries are freed two sessions later and must then be usable again
+            b.pkg
+                .as_mut()
+                .unwrap()
+                .create_table("W", vec![msi::Column::build("K").primary_key().int32(), msi::Column::build("V").nullable().string(16)])
+                .expect("create W");
+            b.pkg
+                .as_mut()
+                .unwrap()
+                .insert_rows(msi::Insert::into("W").rows(vec![
+                    vec![msi::Value::Int(1), msi::Value::from("w-shared")],
+                    vec![msi::Value::Int(2), msi::Value::from("w-shared")],
+                    vec![msi::Value::Int(3), msi::Value::from("w-other")],
+                    vec![msi::Value::Int(4), msi::Value::from("w-other")],
+                ]))
+                .expect("insert W");
+            let room = CAP - pool_entries(&mut b);
+            ok &= expect(rep, "pool-65535", mode, "fill to L", b.step("insert of distinct strings up to 65,535 pool entries", true, ins(0, room)), Some(Outcome::Ok));
+            if ok {
+                let _ = b.reopen();
+            }
+            let del = |ks: [i32; 2]| move |p: &mut Pkg| p.delete_rows(msi::Delete::from("W").with(msi::Expr::col("K").eq(msi::Expr::integer(ks[0])).or(msi::Expr::col("K").eq(msi::Expr::integer(ks[1])))));
+            ok &= ok && expect(rep, "pool-65535", mode, "delete one user of each shared string", b.step("delete that only lowers reference counts", false, del([1, 3])), Some(Outcome::Ok));
+            if ok {
+                let _ = b.reopen();
+            }
+            ok &= ok && expect(rep, "pool-65535", mode, "delete the last users (frees 2 entries)", b.step("delete of the last users of two strings", false, del([2, 4])), Some(Outcome::Ok));
+            if ok {
+                let _ = b.reopen();
+            }
+            ok &= ok && expect(rep, "pool-65535", mode, "2 new strings into the freed entries", b.step("insert of 2 new strings after the shared strings were released", false, ins(room, room + 2)), Some(Outcome::Ok));
+            ok &= ok && expect(rep, "pool-65535", mode, "1 more", b.step("insert beyond the limit after refill", false, ins(room + 2, room + 3)), Some(Outcome::Err));
+        }
+        "reference-count-overflow-at-full-pool" => {
+            // one string referenced 65,534 times; a row holding it twice needs a second entry for it
+            b.pkg
+                .as_mut()
+                .unwrap()
+                .create_table("D", vec![msi::Column::build("K").primary_key().int32(), msi::Column::build("A").nullable().string(8), msi::Column::build("B").nullable().string(8)])
+                .expect("create D");
+            let dup_rows: Vec<Vec<msi::Value>> = (1..=32_767).map(|i| vec![msi::Value::Int(i), msi::Value::from("dup"), msi::Value::from("dup")]).collect();
+            ok &= expect(rep, "pool-65535", mode, "65,534 references to one string", b.step("insert of 32,767 rows referencing one string twice each", true, move |p| p.insert_rows(msi::Insert::into("D").rows(dup_rows))), Some(Outcome::Ok));
+            let room = CAP - pool_entries(&mut b);
+            ok &= ok && expect(rep, "pool-65535", mode, "fill to L", b.step("insert of distinct strings up to 65,535 pool entries", true, ins(0, room)), Some(Outcome::Ok));
+            let twice = |k: i32| move |p: &mut Pkg| p.insert_rows(msi::Insert::into("D").row(vec![msi::Value::Int(k), msi::Value::from("dup"), msi::Value::from("dup")]));
+            ok &= ok && expect(rep, "pool-65535", mode, "row whose second reference needs a new entry", b.step("insert of a row that takes the string's reference count past 65,535 at a full pool", false, twice(40_000)), Some(Outcome::Err));
+            let once = |p: &mut Pkg| p.insert_rows(msi::Insert::into("D").row(vec![msi::Value::Int(40_001), msi::Value::from("dup"), msi::Value::Null]));
+            ok &= ok && expect(rep, "pool-65535", mode, "65,535th reference", b.step("insert of a row with the 65,535th reference", false, once), Some(Outcome::Ok));
+            let del = |p: &mut Pkg| p.delete_rows(msi::Delete::from("S").with(msi::Expr::col("K").eq(msi::Expr::string("s00003"))));
+            ok &= ok && expect(rep, "pool-65535", mode, "free one entry", b.step("delete of one row", false, del), Some(Outcome::Ok));
+            ok &= ok && expect(rep, "pool-65535", mode, "the same kind of row with one free entry", b.step("insert of a row that needs a second entry for the string, one entry free", false, twice(40_002)), Some(Outcome::Ok));
+        }
         "incremental-with-reopen" => {
             let third = room / 3;
             let mut at = 0;
@@ -392,6 +459,51 @@ fn pool_limit(rep: &mut Report, mode: &str) {
             ok &= ok && expect(rep, "pool-65535", mode, "update reusing the released slot", b.step("update of one key to a new string at the limit", false, upd), None);
         }
     }
+    let _ = ok;
+}
+
+/// The catalog tables have the same row limit as every table: `_Columns` filled (through the API) to two rows
+/// below it, then tables whose columns fit / do not fit.
+fn catalog_row_limit(rep: &mut Report) {
+    const L: usize = 65_536;
+    let (limit, mode) = ("catalog-rows-65536", "create-table");
+    let mut b = Bench::new();
+    b.pkg.as_mut().unwrap().create_table("Filler", vec![msi::Column::build("K").primary_key().int16()]).expect("create Filler");
+    let base = b.pkg.as_mut().unwrap().select_rows(msi::Select::table("_Columns")).map(|r| r.count()).unwrap_or(0);
+    // padding rows: further "columns" of Filler (removed again before the package is saved)
+    let pad: Vec<Vec<msi::Value>> = (-32_767..=32_767)
+        .filter(|n| *n != 1)
+        .take(L - 2 - base)
+        .map(|n| vec![msi::Value::from("Filler"), msi::Value::Int(n), msi::Value::from("Pad"), msi::Value::Int(0x1502)])
+        .collect();
+    let mut ok = expect(rep, limit, mode, "pad _Columns to L-2 rows", b.step_opts("insert of padding rows into _Columns", true, false, move |p| p.insert_rows(msi::Insert::into("_Columns").rows(pad))), Some(Outcome::Ok));
+    let cols = |n: usize| -> Vec<msi::Column> { (0..n).map(|i| if i == 0 { msi::Column::build("K").primary_key().int16() } else { msi::Column::build(format!("C{}", i)).nullable().int16() }).collect() };
+    ok &= ok && expect(rep, limit, mode, "table with 3 columns (2 rows free)", b.step_opts("create_table needing 3 catalog rows with 2 free", false, false, |p| p.create_table("Cat3", cols(3))), Some(Outcome::Err));
+    ok &= ok && expect(rep, limit, mode, "table with 1 column (to L-1)", b.step_opts("create_table needing 1 catalog row", false, false, |p| p.create_table("Cat1", cols(1))), Some(Outcome::Ok));
+    ok &= ok && expect(rep, limit, mode, "table with 2 columns (1 row free)", b.step_opts("create_table needing 2 catalog rows with 1 free", false, false, |p| p.create_table("Cat2", cols(2))), Some(Outcome::Err));
+    ok &= ok && expect(rep, limit, mode, "table with 1 column (to L)", b.step_opts("create_table needing the last catalog row", false, false, |p| p.create_table("Cat1b", cols(1))), Some(Outcome::Ok));
+    ok &= ok && expect(rep, limit, mode, "one more table", b.step_opts("create_table at the catalog row limit", false, false, |p| p.create_table("Cat1c", cols(1))), Some(Outcome::Err));
+    // no trace of the refused tables in the catalog
+    if ok {
+        let n = b
+            .pkg
+            .as_mut()
+            .unwrap()
+            .select_rows(msi::Select::table("_Tables").with(msi::Expr::col("Name").eq(msi::Expr::string("Cat3")).or(msi::Expr::col("Name").eq(msi::Expr::string("Cat2"))).or(msi::Expr::col("Name").eq(msi::Expr::string("Cat1c")))))
+            .map(|r| r.count())
+            .unwrap_or(usize::MAX);
+        if n != 0 {
+            rep.violation(
+                format!("{}/{}/{}/err-changed-package", PROP.with(|p| p.get()), limit, mode),
+                format!("[{} / {}] _Tables holds {} row(s) for tables whose creation was refused at the catalog row limit", limit, mode, n),
+                json!({"kind": "capacity", "limit": limit, "mode": mode, "step": "catalog rows of refused tables"}),
+            );
+            ok = false;
+        }
+    }
+    // the padding is removed; what is saved now must reopen to the same state
+    let unpad = |p: &mut Pkg| p.delete_rows(msi::Delete::from("_Columns").with(msi::Expr::col("Table").eq(msi::Expr::string("Filler")).and(msi::Expr::col("Number").ne(msi::Expr::integer(1)))));
+    ok &= ok && expect(rep, limit, mode, "remove the padding, save, reopen", b.step("delete of the padding rows", false, unpad), Some(Outcome::Ok));
     let _ = ok;
 }
 
@@ -448,13 +560,29 @@ fn name_limits(rep: &mut Report) {
     }
 }
 
-/// The scenarios in which a refused call must change nothing, reported under C04.
-pub fn capacity_for_c04(which: usize, rep: &mut Report) {
-    PROP.with(|p| p.set("C04"));
+/// Index (for `capacity_for`) of the scenario a witness names.
+pub fn which_of(limit: Option<&str>, mode: Option<&str>) -> usize {
+    match (limit, mode) {
+        (Some("rows-65536"), _) => 0,
+        (Some("catalog-rows-65536"), _) => 5,
+        (_, Some("one-batch")) => 1,
+        (_, Some("create-table-at-limit")) => 2,
+        (_, Some("shared-strings-over-sessions")) => 3,
+        _ => 4,
+    }
+}
+
+/// The limit scenarios reported under another property: C04 ("a refused call changes nothing") and
+/// C08 ("every saved file is well-formed with exact string accounting") reuse them.
+pub fn capacity_for(prop: &'static str, which: usize, rep: &mut Report) {
+    PROP.with(|p| p.set(prop));
     match which {
         0 => row_limit(rep, "one-batch"),
         1 => pool_limit(rep, "one-batch"),
-        _ => pool_limit(rep, "create-table-at-limit"),
+        2 => pool_limit(rep, "create-table-at-limit"),
+        3 => pool_limit(rep, "shared-strings-over-sessions"),
+        4 => pool_limit(rep, "reference-count-overflow-at-full-pool"),
+        _ => catalog_row_limit(rep),
     }
     PROP.with(|p| p.set("C20"));
     rep.count("capacity_scenarios");
@@ -470,6 +598,9 @@ pub fn run(ctx: &Ctx) -> Report {
     jobs.push(("pool-65535", "incremental-with-reopen"));
     jobs.push(("pool-65535", "after-deletions"));
     jobs.push(("pool-65535", "create-table-at-limit"));
+    jobs.push(("pool-65535", "shared-strings-over-sessions"));
+    jobs.push(("pool-65535", "reference-count-overflow-at-full-pool"));
+    jobs.push(("catalog-rows-65536", "create-table"));
     if let Some((l, m)) = &replay_only {
         jobs.retain(|(jl, jm)| (jl == l || (*jl == "names" && (l == "name-31-units" || l == "table-name" || l == "column-name"))) && (jm == m || *jl == "names" || *jl == "columns-32"));
     }
@@ -484,6 +615,7 @@ pub fn run(ctx: &Ctx) -> Report {
                 "columns-32" => columns_limit(&mut rep),
                 "names" => name_limits(&mut rep),
                 "rows-65536" => row_limit(&mut rep, mode),
+                "catalog-rows-65536" => catalog_row_limit(&mut rep),
                 _ => pool_limit(&mut rep, mode),
             }
             rep.count("limit_scenarios");
